@@ -203,6 +203,20 @@ def scale_S(r, V=None):
     return 2 * s + np.linalg.norm(np.asarray(V, np.float64), axis=-1).sum(axis=-1)
 
 
+DOM_MARGIN = 64 * EPS32     # relative margin kept from the edge of the minimum-image domain (half the smallest width)
+
+
+def in_domain(d, half_width, tol):
+    """True where the minimum-image distance d lies inside the domain in which the property promises the minimum image
+    (d < half the smallest cell width) by more than a float32 margin: whether a kernel still finds the image for a pair
+    sitting ON the edge depends on the last bit of the box matrix and of the coordinates, so pairs within
+    64*eps32*half_width + 2*tol (tol = the pair's own displacement error model) of the edge are not judged for equality
+    (they are still judged for 'never below the minimum' and 'is a lattice translate').  Returns (inside, in_margin_band)."""
+    d = np.asarray(d, np.float64)
+    inside = d < half_width * (1 - DOM_MARGIN) - 2 * np.asarray(tol, np.float64)
+    return inside, (d < half_width * (1 + DOM_MARGIN) + 2 * np.asarray(tol, np.float64)) & ~inside
+
+
 C_DISP = 8      # number of float32 roundings (unit eps32) allowed for in a displacement / distance
 
 
